@@ -18,11 +18,12 @@ RULE = ("file-backed SqliteStorage with lazy commit. Ground truth: every worker 
         "through a second read-only connection that the write is committed when it returns. Reach: the same scenario "
         "and generated trickle/burst/idle schedules under a virtual clock patched into the sqlite module (pauses 0 s "
         ".. 1 year, with mass on whole days and whole days + a few seconds); virtual results count only in a worker whose virtual twin of the real scenario gave the same "
-        "verdict as real time. evaluations = event writes judged after a pause >= 12 s; non-trivial = there were "
+        "verdict as real time. slow trickles whose pauses are all short are judged too; evaluations = event writes judged at an age >= 12 s; non-trivial = there were "
         "uncommitted writes pending before the pause; signature = (clock, write kind, pause class, pending class, "
         "previous op kind)")
-ASSUMPTIONS = ["the pause is measured from the previous operation of any kind (no flush can be later than that)",
-               "nothing is required of writes that follow a pause shorter than 12 s",
+ASSUMPTIONS = ["the age is measured from the latest operation that MAY have flushed (read, bucket op, multi-statement write, no-op "
+               "write, or a single-statement write that came back fully committed): an upper bound on the real last flush",
+               "nothing is required of a write issued less than 12 s after that point; single-statement event writes must be fully committed on return, of a multi-statement write at least one elementary change must be",
                "process death only; the observer connection's view = what a crash at that instant leaves"]
 
 SCENARIOS = [
@@ -94,30 +95,64 @@ def _op(kind, rng_pick=0):
     return dict(op=kind, b="b", ev=ev, pick=rng_pick)
 
 
+SINGLE_STATEMENT_WRITES = ("insert", "replace", "replace_last", "delete")
+
+
 def run_schedule(steps, ctx, clock, sleeper):
-    """steps: list of (pause_s, op). Returns list of judged points: (ok, info)."""
+    """steps: list of (pause_s, op). Returns list of judged points: (ok, info).
+
+    The age of the buffered data is measured from the latest operation that MAY have flushed (t_flush): a read, a
+    bucket-level operation, a multi-statement write (a commit can sit between its statements), a write that changed
+    nothing, or a single-statement write after which the committed view equalled the writer's view. That is an upper
+    bound on the store's real last flush, so 'now - t_flush >= 12 s' implies 'more than about ten seconds after the
+    previous flush' under every reading - also for a slow trickle whose individual pauses are all short."""
     path = os.path.join(ctx.tmp, f"c18-{os.getpid()}-{int(time.monotonic() * 1e6) % 10**10}.db")
     hr = HistoryRunner("sqlite", path, ctx.tmp)
     obs = Observer(path, "sqlite")
     judged = []
+
+    def now():
+        return time.monotonic() + (VClock.offset.total_seconds() if clock == "virtual" else 0.0)
+
     try:
         hr.run_op(dict(op="create_bucket", b="b"))
         hr.refresh()
+        t_flush = now()
         prev_kind = "create_bucket"
         for pause, op in steps:
-            pending = len(hr.view ^ (obs.snapshot() or frozenset()))
+            committed_before = obs.snapshot() or frozenset()
+            view_before = hr.view
+            pending = len(view_before ^ committed_before)
             if pause > 0:
                 sleeper(pause)
+            t_call = now()
+            age = t_call - t_flush
             done = hr.run_op(op)
             hr.refresh()
             committed = obs.snapshot()
+            kind = op["op"]
+            single = kind in SINGLE_STATEMENT_WRITES or (kind == "upsert" and len(op.get("items", [])) == 1)
+            changed = hr.view != view_before
             if committed is None:
                 ctx.inconclusive += 1
-            elif done is not None and op["op"] != "read" and pause >= PAUSE:
-                ok = committed == hr.view
-                judged.append((ok, dict(clock=clock, write=op["op"], pause=pause, pending_before=pending, prev=prev_kind,
-                                        missing_rows=len(hr.view ^ committed))))
-            prev_kind = op["op"]
+                t_flush = now()
+            else:
+                flushed = committed == hr.view
+                if done is not None and changed and kind != "read" and age >= PAUSE:
+                    if single:
+                        ok = flushed
+                    else:
+                        # a multi-statement write may legitimately flush in the middle (the rest is then young data),
+                        # but whichever of its elementary writes was issued first was issued at age >= 12 s and must
+                        # be durable on return: at least one of the op's row changes has to be committed
+                        added, removed = hr.view - view_before, view_before - hr.view
+                        ok = any(r in committed for r in added) or any(r not in committed for r in removed)
+                    judged.append((ok, dict(clock=clock, write=kind + ("" if single else "(multi)"), pause=pause, age=round(age, 1),
+                                            pending_before=pending, prev=prev_kind, missing_rows=len(hr.view ^ committed),
+                                            trickle=pause < PAUSE)))
+                if not (single and changed) or flushed:
+                    t_flush = now()
+            prev_kind = kind
     finally:
         obs.close()
         hr.close(remove=True)
@@ -137,7 +172,7 @@ def _record(ctx, judged, case, weight_key):
     for ok, info in judged:
         ctx.count(weight_key)
         ctx.count("aged_writes_judged")
-        pc = 0 if info["pause"] < 13 else (1 if info["pause"] < 60 else (2 if info["pause"] < 86399 else (
+        pc = -1 if info.get("trickle") else 0 if info["pause"] < 13 else (1 if info["pause"] < 60 else (2 if info["pause"] < 86399 else (
             3 if info["pause"] % 86400 < 10 else 4)))
         pend = 0 if info["pending_before"] == 0 else (1 if info["pending_before"] < 10 else 2)
         ctx.sigs.add(canon([info["clock"], info["write"], pc, pend, info["prev"]]))
@@ -145,8 +180,9 @@ def _record(ctx, judged, case, weight_key):
             ctx.count("judged_with_pending_writes")
         if not ok:
             viols.append((f"aged-write-not-flushed-on-return:{info['clock']}-clock",
-                          f"{info['write']} issued {info['pause']} s after the previous operation ({info['prev']}) returned "
-                          f"with {info['missing_rows']} row change(s) uncommitted (pending before the pause: {info['pending_before']})"))
+                          f"{info['write']} issued {info['age']} s after the latest operation that may have flushed (pause since the "
+                          f"previous operation, {info['prev']}: {info['pause']} s) returned with {info['missing_rows']} row change(s) "
+                          f"uncommitted (pending before: {info['pending_before']})"))
     return viols
 
 
@@ -158,7 +194,8 @@ def worker(ctx):
         pause = PAUSE if rnd == 0 else PAUSE + 1 + (ctx.widx * 7 + rnd * 5) % 18
         steps = [(0, _op(k, i)) for i, k in enumerate(pre)] + [(pause, _op(final, ctx.widx))]
         if name == "trickle":
-            steps = [(0, _op("insert")), (pause, _op("insert"))]
+            # no single pause reaches ten seconds, but the second write is ~13 s younger than the last flush
+            steps = [(0, _op("insert")), (pause / 2 + 0.5, _op("insert")), (pause / 2 + 0.5, _op("insert"))]
         case = dict(kind="real", scenario=name, pause_s=pause, ops=[s[1]["op"] for s in steps])
         uninstall_virtual_clock()
         real = run_schedule(steps, ctx, "real", _real_sleeper)
